@@ -54,3 +54,13 @@ claim("C20",
   "Runtime monitoring against references independent of the implementation (strconv digit counts, widened and big-integer arithmetic, explicit comparisons): Min/Max/Clamp/Sum/Product/Compare/Less/Coal over ALL pairs and triples of int8 and uint8, Digits10/DigitsSign10/Abs/Clamp01/IsZero over all 8- and 16-bit values (named types included), boundary-dense samples of int32/int64/int/uint/uintptr/float32/float64/string/complex, and the utility helpers (Zero, ZeroOf, IsZero with method, Tern, TernCast, Ref, DerefZero, IsNil). Exhaustive only where stated.",
   "Trusted: Go toolchain, strconv, math/big. NaN excluded; Abs(min) excluded ('where representable').",
   "DESIGN.md section 4, C20")
+claim("C03",
+  "reference-model lock-step monitor (map[T]bool per set object) over random construction histories in all four implementation pairings; operands and results fully re-read after every call",
+  "Runtime monitoring: A and B are built by random histories (constructors with duplicates, Add/Remove/Has-miss/Len/Slice/Clone-and-swap - which for the concurrent set drive misses, promotion and deleted entries), then Union/Intersect/SetDiff/SymDiff in both directions, AddSet/RemoveSet and CartesianProduct are applied; after each call result and operands are re-read (sorted Slice, Has over the universe, Len, Range exactly-once and early stop, String) and compared with the models, and results are mutated to show they share no state with operands (and vice versa). Held on the cases of this run.",
+  "Trusted: Go toolchain; the map model; three element types and universes <= 8. VerifLayout (hooks) is used for coverage evidence only.",
+  "DESIGN.md section 4, C03")
+claim("C06",
+  "differential lock-step monitor against container/list and container/ring of the toolchain through parallel handle tables; all lengths, traversals and every handle's neighbours compared after every call",
+  "Runtime monitoring: every List call (Push*, Insert*, Move*, Remove, Init, PushBackList/PushFrontList of another list and of itself, Front/Back) with element arguments drawn from live-here / live-elsewhere / removed / never-inserted, and every Ring call (NewRing incl. n<=0, zero rings, Next, Prev, Move any sign, Link same/other/itself, Unlink, Len, Do) is made on both libraries; return values, Len, forward and backward traversals and Next/Prev of every handle ever issued must agree after every call; a self-push that never returns is caught by the per-case watchdog and confirmed by a re-run. Held on the histories of this run.",
+  "Trusted: Go toolchain incl. container/list and container/ring as the reference. Nil element/receiver arguments are not generated; elements orphaned by Init() (stale owner pointer in both libraries) are retired.",
+  "DESIGN.md section 4, C06")
